@@ -4,20 +4,31 @@ package main
 // involved; reported with solver "const-eval".
 
 import (
+	"encoding/json"
 	"fmt"
 	"go/constant"
+	"go/token"
+	"go/types"
+	"os"
+	"path/filepath"
 	"sort"
 	"strings"
 
 	"golang.org/x/tools/go/ssa"
 )
 
-func staticObligations(p *Program, prop string) []*Obligation {
+func staticObligations(p *Program, prop, verif string) ([]*Obligation, []string) {
 	var out []*Obligation
+	var assumed []string
 	if prop == "C16" || prop == "C09" {
 		out = append(out, errorFormatVerbs(p)...)
 	}
-	return out
+	if prop == "C09" {
+		mo, as := mapRangeObligations(p, verif)
+		out = append(out, mo...)
+		assumed = append(assumed, as...)
+	}
+	return out, assumed
 }
 
 // errorFormatVerbs: no entry of errs.errorFormat uses a verb that prints a Go value's structure or an
@@ -86,4 +97,283 @@ func errorFormatVerbs(p *Program) []*Obligation {
 		o.Model = o.RawOut
 	}
 	return []*Obligation{o}
+}
+
+// ---- C09: iteration over Go maps -----------------------------------------------------------------------
+// Every `range` over a map in non-test code of the module is an obligation "the iteration order cannot
+// influence the result". It is discharged by the SHAPE of the loop where that is evident from the SSA
+// (clear: only deletes; copy: only m2[k] = v with the range key; collect-sorted: only appends to a local
+// slice and the function sorts afterwards; none of them leaves the loop early), otherwise it must be on the
+// reviewed list /verif/spec/maprange_reviewed.json ("order-insensitive" with the invariant it relies on:
+// an assumption listed in the evidence, or "order-dependent": a violation unless recorded as a finding).
+// A new map range anywhere in the module therefore fails its obligation until somebody looks at it.
+
+type mapRangeSite struct {
+	fn    *ssa.Function
+	ord   int
+	pos   token.Position
+	shape string // "", "clear", "copy", "collect-sorted"
+	why   string
+}
+
+func (s mapRangeSite) name() string { return fmt.Sprintf("%s#maprange:%d", shortFn(s.fn), s.ord) }
+
+func mapRangeSiteList(p *Program) []mapRangeSite {
+	var out []mapRangeSite
+	seen := map[*ssa.Function]bool{}
+	var visit func(fn *ssa.Function)
+	visit = func(fn *ssa.Function) {
+		if fn == nil || seen[fn] || fn.Blocks == nil {
+			return
+		}
+		seen[fn] = true
+		var rs []*ssa.Range
+		for _, b := range fn.Blocks {
+			for _, in := range b.Instrs {
+				if r, ok := in.(*ssa.Range); ok {
+					if _, isMap := r.X.Type().Underlying().(*types.Map); isMap {
+						rs = append(rs, r)
+					}
+				}
+			}
+		}
+		sort.Slice(rs, func(i, j int) bool { return rs[i].Pos() < rs[j].Pos() })
+		for i, r := range rs {
+			site := mapRangeSite{fn: fn, ord: i + 1, pos: p.fset.Position(r.Pos())}
+			site.shape, site.why = mapRangeShape(fn, r)
+			out = append(out, site)
+		}
+		for _, an := range fn.AnonFuncs {
+			visit(an)
+		}
+	}
+	var paths []string
+	for path := range p.pkgs {
+		paths = append(paths, path)
+	}
+	sort.Strings(paths)
+	for _, path := range paths {
+		if !strings.HasPrefix(path, modPath) {
+			continue
+		}
+		pkg := p.pkgs[path]
+		var names []string
+		for n := range pkg.Members {
+			names = append(names, n)
+		}
+		sort.Strings(names)
+		for _, n := range names {
+			switch t := pkg.Members[n].(type) {
+			case *ssa.Function:
+				visit(t)
+			case *ssa.Type:
+				for _, tt := range []types.Type{t.Type(), types.NewPointer(t.Type())} {
+					ms := p.prog.MethodSets.MethodSet(tt)
+					for i := 0; i < ms.Len(); i++ {
+						visit(p.prog.MethodValue(ms.At(i)))
+					}
+				}
+			}
+		}
+	}
+	return out
+}
+
+// mapRangeShape classifies the loop of a map range by its effectful instructions.
+func mapRangeShape(fn *ssa.Function, r *ssa.Range) (string, string) {
+	// header: the block holding the Next of this range
+	var head *ssa.BasicBlock
+	var next *ssa.Next
+	for _, ref := range *r.Referrers() {
+		if n, ok := ref.(*ssa.Next); ok {
+			head, next = n.Block(), n
+		}
+	}
+	if head == nil {
+		return "", "no Next instruction found"
+	}
+	// natural loop: blocks dominated by the header from which the header is reachable
+	reach := map[*ssa.BasicBlock]bool{}
+	var back func(b *ssa.BasicBlock)
+	back = func(b *ssa.BasicBlock) {
+		if reach[b] {
+			return
+		}
+		reach[b] = true
+		if b == head {
+			return
+		}
+		for _, pr := range b.Preds {
+			back(pr)
+		}
+	}
+	for _, pr := range head.Preds {
+		if head.Dominates(pr) {
+			back(pr)
+		}
+	}
+	reach[head] = true
+	// the key cell: the alloc that receives Extract(next, 1)
+	keyCells := map[ssa.Value]bool{}
+	var keyVals []ssa.Value
+	for _, ref := range *next.Referrers() {
+		if ex, ok := ref.(*ssa.Extract); ok && ex.Index == 1 {
+			keyVals = append(keyVals, ex)
+			for _, r2 := range *ex.Referrers() {
+				if st, ok := r2.(*ssa.Store); ok {
+					keyCells[st.Addr] = true
+				}
+			}
+		}
+	}
+	isKey := func(v ssa.Value) bool {
+		for _, k := range keyVals {
+			if v == k {
+				return true
+			}
+		}
+		if u, ok := v.(*ssa.UnOp); ok && u.Op == token.MUL && keyCells[u.X] {
+			return true
+		}
+		return false
+	}
+	deletes, updates, appends, other := 0, 0, 0, ""
+	for b := range reach {
+		if !head.Dominates(b) {
+			continue
+		}
+		for _, in := range b.Instrs {
+			switch t := in.(type) {
+			case *ssa.Return, *ssa.Panic:
+				other = "the loop can be left early (" + fmt.Sprintf("%T", in) + ")"
+			case *ssa.Go, *ssa.Defer, *ssa.Send:
+				other = fmt.Sprintf("%T inside the loop", in)
+			case *ssa.Store:
+				a := t.Addr
+				for {
+					if ia, ok := a.(*ssa.IndexAddr); ok {
+						a = ia.X
+					} else if fa, ok := a.(*ssa.FieldAddr); ok {
+						a = fa.X
+					} else {
+						break
+					}
+				}
+				if _, local := a.(*ssa.Alloc); !local {
+					other = "store to a non-local location inside the loop"
+				}
+			case *ssa.MapUpdate:
+				if isKey(t.Key) {
+					updates++
+				} else {
+					other = "map update with a key other than the range key"
+				}
+			case *ssa.Call:
+				if bi, ok := t.Call.Value.(*ssa.Builtin); ok {
+					switch bi.Name() {
+					case "delete":
+						if len(t.Call.Args) == 2 && isKey(t.Call.Args[1]) {
+							deletes++
+						} else {
+							other = "delete with a key other than the range key"
+						}
+					case "append":
+						appends++
+					case "len", "cap":
+					default:
+						other = "builtin " + bi.Name() + " inside the loop"
+					}
+				} else {
+					name := "a function value"
+					if c := t.Call.StaticCallee(); c != nil {
+						name = shortFn(c)
+					}
+					other = "call of " + name + " inside the loop"
+				}
+			}
+		}
+	}
+	// early exit through a conditional branch out of the loop other than the header's own exit
+	for b := range reach {
+		if b == head || !head.Dominates(b) {
+			continue
+		}
+		for _, s := range b.Succs {
+			if !reach[s] {
+				other = "the loop can be left early (break)"
+			}
+		}
+	}
+	if other != "" {
+		return "", other
+	}
+	sorted := false
+	for _, b := range fn.Blocks {
+		for _, in := range b.Instrs {
+			if c, ok := in.(*ssa.Call); ok {
+				if sc := c.Call.StaticCallee(); sc != nil && sc.Pkg != nil && (sc.Pkg.Pkg.Path() == "sort" || sc.Pkg.Pkg.Path() == "slices") && strings.HasPrefix(sc.Name(), "S") && c.Pos() > r.Pos() {
+					sorted = true
+				}
+			}
+		}
+	}
+	switch {
+	case deletes > 0 && updates == 0 && appends == 0:
+		return "clear", "the loop only deletes the range key"
+	case updates > 0 && deletes == 0 && appends == 0:
+		return "copy", "the loop only stores under the range key into a map (keys are distinct)"
+	case appends > 0 && updates == 0 && deletes == 0 && sorted:
+		return "collect-sorted", "the loop only collects into a local slice that the function sorts afterwards"
+	case appends == 0 && updates == 0 && deletes == 0:
+		return "clear", "the loop has no effect"
+	}
+	return "", "mixed effects inside the loop"
+}
+
+type mapRangeReview struct {
+	Verdict string `json:"verdict"` // "order-insensitive" | "order-dependent"
+	Reason  string `json:"reason"`
+}
+
+func mapRangeObligations(p *Program, verif string) ([]*Obligation, []string) {
+	reviewed := map[string]mapRangeReview{}
+	if b, err := os.ReadFile(filepath.Join(verif, "spec", "maprange_reviewed.json")); err == nil {
+		_ = json.Unmarshal(b, &reviewed)
+	}
+	var out []*Obligation
+	var assumed []string
+	used := map[string]bool{}
+	for _, s := range mapRangeSiteList(p) {
+		o := &Obligation{Name: s.name(), Kind: "table", Fn: shortFn(s.fn), Pos: s.pos, Solver: "shape-analysis",
+			Desc: "the order of this iteration over a Go map cannot influence the result"}
+		switch {
+		case s.shape != "":
+			o.Status = "unsat"
+			o.RawOut = s.shape + ": " + s.why
+		default:
+			rv, ok := reviewed[s.name()]
+			used[s.name()] = true
+			switch {
+			case ok && rv.Verdict == "order-insensitive":
+				o.Status = "unsat"
+				o.Solver = "reviewed-list"
+				o.RawOut = "reviewed: " + rv.Reason
+				assumed = append(assumed, "map iteration at "+s.name()+" reviewed as order-insensitive, NOT proved ("+s.why+"): "+rv.Reason)
+			case ok:
+				o.Status = "sat"
+				o.RawOut = "order-dependent: " + rv.Reason
+			default:
+				o.Status = "unknown"
+				o.RawOut = "not order-insensitive by shape (" + s.why + ") and not on the reviewed list /verif/spec/maprange_reviewed.json"
+			}
+		}
+		out = append(out, o)
+	}
+	for k := range reviewed {
+		if !used[k] {
+			assumed = append(assumed, "stale entry in maprange_reviewed.json (no such site, or now decided by shape): "+k)
+		}
+	}
+	sort.Strings(assumed)
+	return out, assumed
 }
